@@ -1,7 +1,9 @@
 //! C06 - alpha multiply / divide: whole images through the real kernels, every lane position.
 
 use crate::util::*;
-use crate::with_pixel_type;
+use crate::views::{placements, Shape, PLACEMENTS};
+use crate::{with_pixel_type, with_view, with_view_mut};
+use fir::pixels::InnerPixel;
 use fast_image_resize as fir;
 use fir::images::Image;
 use fir::{MulDiv, PixelType};
@@ -166,6 +168,8 @@ pub fn generate(out: &mut Out, seed: u64, thorough: bool) {
             }
         }
     }
+    tables(out);
+    generate_views(out, &mut rng, thorough);
     // pixel types without alpha are rejected; size mismatches are rejected
     for &pt in ALL_TYPES.iter() {
         let md = MulDiv::new();
@@ -240,4 +244,156 @@ fn emit(
     );
     let k = fnv(line.as_bytes());
     out.push(line, Some(k));
+}
+
+/// the constant tables the implementation built (through the hooks), to be compared with the translated generators
+pub fn tables(out: &mut Out) {
+    use fir::verif_hooks as vh;
+    let clip = vh::clip8_table();
+    let hex: String = clip.iter().map(|&v| format!("{:016x}", v)).collect();
+    out.push(format!("table name=clip8 off=0 size={} vals={}", clip.len(), hex), Some(fnv(b"clip8")));
+    let hex: String = (0..256u32).map(|a| format!("{:016x}", vh::recip_alpha(a as u8))).collect();
+    out.push(format!("table name=recip8 off=0 size=256 vals={}", hex), Some(fnv(b"recip8")));
+    for chunk in 0..16u32 {
+        let hex: String = (0..4096u32).map(|i| format!("{:016x}", vh::recip_alpha16((chunk * 4096 + i) as u16))).collect();
+        out.push(format!("table name=recip16 off={} size=65536 vals={}", chunk * 4096, hex), Some(fnv(format!("recip16-{}", chunk).as_bytes())));
+    }
+    out.count_n("table-entries", clip.len() as u64 + 256 + 65536);
+}
+
+fn px_from_comps<P: InnerPixel>(kind: Kind, comps: &[u64]) -> Vec<P> {
+    let bytes = comps_to_bytes(kind, comps);
+    let n = bytes.len() / P::size();
+    let mut v = vec![P::default(); n];
+    unsafe { std::ptr::copy_nonoverlapping(bytes.as_ptr(), v.as_mut_ptr() as *mut u8, n * P::size()) };
+    v
+}
+
+fn comps_from_px<P: InnerPixel>(kind: Kind, px: &[P]) -> Vec<u64> {
+    let mut b = vec![0u8; px.len() * P::size()];
+    unsafe { std::ptr::copy_nonoverlapping(px.as_ptr() as *const u8, b.as_mut_ptr(), b.len()) };
+    bytes_to_comps(kind, &b)
+}
+
+fn rand_alpha_comps(rng: &mut Rng, kind: Kind, n: usize, pixels: usize) -> Vec<u64> {
+    let mut v = Vec::with_capacity(pixels * n);
+    for _ in 0..pixels {
+        for c in 0..n {
+            let x = match kind {
+                Kind::F32 => f32_pool(rng),
+                _ => {
+                    let m = kind.max();
+                    if c == n - 1 {
+                        match rng.below(6) {
+                            0 => 0,
+                            1 => m,
+                            2 => 1,
+                            3 => m - 1,
+                            _ => rng.below(m + 1),
+                        }
+                    } else if rng.chance(1, 6) {
+                        m
+                    } else {
+                        rng.below(m + 1)
+                    }
+                }
+            };
+            v.push(x);
+        }
+    }
+    v
+}
+
+/// alpha operations through cropped / nested / offset views: only the destination view may change
+pub fn generate_views(out: &mut Out, rng: &mut Rng, thorough: bool) {
+    let widths: [u32; 12] = [1, 2, 3, 4, 5, 7, 8, 9, 15, 16, 17, 33];
+    let rounds = if thorough { 12 } else { 3 };
+    for &pt in ALPHA_TYPES.iter() {
+        let kind = pt_kind(pt);
+        let n = pt_comps(pt);
+        for is_mul in [true, false] {
+            for (ext_name, ext) in exts() {
+                for inplace in [false, true] {
+                    for _ in 0..rounds {
+                        for sp in 0..PLACEMENTS {
+                            let w = *rng.pick(&widths);
+                            let h = rng.range(1, 4) as u32;
+                            let dp = rng.below(PLACEMENTS as u64) as usize;
+                            // one case in 12: destination view of another size (must be rejected)
+                            let mismatch = !inplace && rng.chance(1, 12);
+                            let sshape = placements(w, h, sp);
+                            let dshape = if inplace {
+                                sshape.clone()
+                            } else if mismatch {
+                                placements(w + 1, h, dp)
+                            } else {
+                                placements(w, h, dp)
+                            };
+                            let sbuf = rand_alpha_comps(rng, kind, n, sshape.buf_len());
+                            let dbuf = if inplace { sbuf.clone() } else { rand_alpha_comps(rng, kind, n, dshape.buf_len()) };
+                            let mut md = MulDiv::new();
+                            unsafe { md.set_cpu_extensions(ext) };
+                            let r: Result<Result<Vec<u64>, String>, String> = with_pixel_type!(pt, P => {
+                                view_case::<P>(&md, kind, is_mul, inplace, &sshape, &dshape, &sbuf, &dbuf)
+                            });
+                            let got = match r {
+                                Ok(Ok(c)) => format!("ok:{}", comps_hex(kind, &c)),
+                                Ok(Err(e)) => format!("err:{}", e.replace(' ', "")),
+                                Err(p) => format!("panic:{}", p.replace(' ', "_")),
+                            };
+                            out.count(&format!("view:{}:{}:{}:{}", pt_name(pt), if is_mul { "mul" } else { "div" }, ext_name, if inplace { "inplace" } else { "two" }));
+                            out.count(&format!("view-placement:src{}:dst{}", sp, if inplace { sp } else { dp }));
+                            if mismatch {
+                                out.count("view:size-mismatch");
+                            }
+                            let line = format!(
+                                "alphaview pt={} op={} ext={} variant={} sview={} dview={} sbuf={} dbuf={} got={}",
+                                pt_name(pt),
+                                if is_mul { "mul" } else { "div" },
+                                ext_name,
+                                if inplace { "inplace" } else { "two" },
+                                sshape.desc(),
+                                dshape.desc(),
+                                comps_hex(kind, &sbuf),
+                                comps_hex(kind, &dbuf),
+                                got
+                            );
+                            let k = fnv(line.as_bytes());
+                            out.push(line, Some(k));
+                        }
+                    }
+                }
+            }
+        }
+    }
+}
+
+#[allow(clippy::too_many_arguments)]
+fn view_case<P: fir::PixelTrait>(
+    md: &MulDiv,
+    kind: Kind,
+    is_mul: bool,
+    inplace: bool,
+    sshape: &Shape,
+    dshape: &Shape,
+    sbuf: &[u64],
+    dbuf: &[u64],
+) -> Result<Result<Vec<u64>, String>, String> {
+    let spx: Vec<P> = px_from_comps(kind, sbuf);
+    let mut dpx: Vec<P> = px_from_comps(kind, dbuf);
+    crate::util::note_current(&format!("alphaview pt={:?} op={} variant={} sview={} dview={}", P::pixel_type(), if is_mul { "mul" } else { "div" }, if inplace { "inplace" } else { "two" }, sshape.desc(), dshape.desc()));
+    let r = catch(|| {
+        if inplace {
+            with_view_mut!(dshape, dpx, P, d => {
+                if is_mul { md.multiply_alpha_inplace_typed(d) } else { md.divide_alpha_inplace_typed(d) }.map_err(|e| format!("{:?}", e))
+            })
+        } else {
+            with_view!(sshape, spx, P, s => {
+                with_view_mut!(dshape, dpx, P, d => {
+                    if is_mul { md.multiply_alpha_typed(s, d) } else { md.divide_alpha_typed(s, d) }.map_err(|e| format!("{:?}", e))
+                })
+            })
+        }
+    });
+    r.map(|x| x.map(|_| comps_from_px(kind, &dpx)))
 }
